@@ -54,7 +54,9 @@ def psd_instance(lead, D, T, K, mask_kind, sensor_dim=-2, source_dim=-2, time_di
             if mask_values is not None:
                 Mc = B.given('m', np.asarray(mask_values, dtype=dtype_mask).reshape(mshape))
             else:
-                Mc = B.real('m', mshape, lo=0.0, dist=(0.0, 1.0))
+                # 'signed': any real mask (phase-sensitive masks, a rest class 1 - m0 - m1 with a rounding residue below zero): the value is
+                # still the mask-weighted sum over the guarded mask sum; positive semidefiniteness is claimed for non-negative masks only
+                Mc = B.real('m', mshape, dist=(-1.0, 1.0)) if variant == 'signed' else B.real('m', mshape, lo=0.0, dist=(0.0, 1.0))
             if mask_kind == 'src':
                 M = np.transpose(Mc, _move_last_to(nd, [kd, td])) if (kd, td) != (nd - 2, nd - 1) else Mc
             else:
@@ -240,6 +242,10 @@ def instances(tier):
     out.append(psd_instance((2, 2), 2, 2, 2, 'src', source_dim=1))
     if th:
         out.append(psd_instance((2, 2), 2, 2, 2, 'src', sensor_dim=0, source_dim=1))
+    # real masks of either sign
+    out.append(psd_instance((2,), 2, 2, 2, 'src', variant='signed'))
+    out.append(psd_instance((), 2, 3, 1, 'nosrc', variant='signed'))
+    out.append(psd_instance((2,), 2, 2, 2, 'src', variant='signed', sensor_dim=0, source_dim=1, normalize=False))
     # scale invariance of a normalised mask
     out.append(psd_instance((), 2, 2, 1, 'nosrc', variant='scale'))
     out.append(psd_instance((2,), 2, 2, 2, 'src', variant='scale'))
